@@ -4,6 +4,8 @@ package main
 
 import (
 	"fmt"
+	"github.com/antonmedv/expr/checker"
+	"github.com/antonmedv/expr/conf"
 	"math/rand"
 	"reflect"
 	"strings"
@@ -297,6 +299,9 @@ func runC15() {
 	g := &egen{rng: rng, wrong: 20, hist: rep.Histogram}
 	var srcs []string
 	srcs = append(srcs, shapeSources()...)
+	// one literal VALUE used once as a retyped (float) argument part and once as a plain int: each occurrence keeps its own type
+	srcs = append(srcs, "Half(F64 * 2) + I / 2", "Half(F64 * 3) + I % 3", "[Half(F64 * 2), I / 2, 2]", "Half(F64 + 7) * 0 + I / 7", "Half(F64 * 2) > 0 ? I / 2 : 0", "I / 2 + Half(F64 * 2)",
+		"Half(2) + I / 2", "[Half(4), I % 4, 4]")
 	srcs = append(srcs, "((IsPos(I) ? -7 : Add(I, 7)) in 2..8)", "Inc(I) in 1..9", "Inc(I) not in 1..9", "P?.Next?.Get(2, I16, 0)", "P?.Get(1)", "St.Next?.Get(1, 2)")
 	ints := []string{"I", "I8", "I16", "I32", "I64", "U", "U8", "U16", "U32", "U64", "1", "300", "F64", "Any"}
 	for _, a := range ints {
@@ -599,6 +604,13 @@ func c15MixedRetypedArg(src string) bool {
 	if err != nil {
 		return false
 	}
+	// static types of the leaves as the checker sees them over the declared environment (errors are irrelevant here): the
+	// recorded finding needs a non-literal leaf whose kind is NOT already the parameter's kind (`I / 2` for a float64
+	// parameter); when every other leaf already has that kind (`F64 * 2`) typed and untyped arithmetic coincide
+	func() {
+		defer func() { recover() }()
+		checker.Check(tree, conf.New(baseEnv()))
+	}()
 	found := false
 	var arith func(n ast.Node, lit, other *bool) bool
 	arith = func(n ast.Node, lit, other *bool) bool {
@@ -622,11 +634,40 @@ func c15MixedRetypedArg(src string) bool {
 		*other = true
 		return false
 	}
+	var otherKinds func(n ast.Node, want reflect.Kind, differs *bool)
+	otherKinds = func(n ast.Node, want reflect.Kind, differs *bool) {
+		switch x := n.(type) {
+		case *ast.IntegerNode:
+			return
+		case *ast.UnaryNode:
+			if x.Operator == "+" || x.Operator == "-" {
+				otherKinds(x.Node, want, differs)
+				return
+			}
+		case *ast.BinaryNode:
+			switch x.Operator {
+			case "+", "-", "*", "/":
+				otherKinds(x.Left, want, differs)
+				otherKinds(x.Right, want, differs)
+				return
+			}
+		}
+		if t := n.Type(); t == nil || t.Kind() != want {
+			*differs = true
+		}
+	}
 	check := func(args []ast.Node) {
 		for _, a := range args {
 			lit, other := false, false
 			if arith(a, &lit, &other) && lit && other {
-				found = true
+				differs := true
+				if t := a.Type(); t != nil {
+					differs = false
+					otherKinds(a, t.Kind(), &differs)
+				}
+				if differs {
+					found = true
+				}
 			}
 		}
 	}
